@@ -13,6 +13,9 @@ Reads with `ast` (never imports the repository):
 and emits lean/Gen/OalLex.lean.  Regular expressions are analysed with Python's own regex parser
 (`re._parser`, flags = re.VERBOSE as PLY compiles them): can the rule match a newline, is it a plain
 literal, and - for the COMMENT rule - the first-character sets of the alternatives inside its repetition.
+Every rule's regex is also emitted as an AST of lean/PyxModel/Regex.lean (`rx_<RULE>`, `rx`; translator/regex_ast.py
+maps re._parser's output 1:1 and raises on a construct the AST does not have): Proofs/OalRegex.lean proves the
+scanners of the lexer model equal to the generic matcher on these ASTs.
 
 Anything that does not have the expected shape raises (reported by the runner as a broken tie).
 """
